@@ -92,6 +92,9 @@ type Step struct {
 	// response body only after that latch (a caller on a slow link: its socket has a 128 KiB receive buffer)
 	SigHeaders string `json:"sigHeaders,omitempty"`
 	ReadAfter  string `json:"readAfter,omitempty"`
+	// StallRead: the caller reads the answer's headers and then stops reading (a process that stalls while it is being
+	// sent something large): its socket has a small receive buffer, the call ends when the process is killed
+	StallRead  bool   `json:"stallRead,omitempty"`
 	SlowBody   string `json:"slowBody,omitempty"` // latch: the request body is uploaded in two parts, the second after this latch
 	Quiet      bool   `json:"quiet,omitempty"`    // await: a timeout is expected and not worth a note
 }
